@@ -716,6 +716,16 @@ class ReadSetReader:
             for alt in variant.get_alt_allele_list():
                 padded_alleles.append(left_pad + alt + right_pad)
 
+        # Only alleles of the restricting genotype (if given) are admissible
+        candidates = [
+            (i, allele)
+            for i, allele in enumerate(padded_alleles)
+            if restricted_variants is None or i in restricted_variants.as_vector()
+        ]
+        if not candidates:
+            # e.g. a missing genotype: there is no allele to decide between
+            return None, None
+
         if use_affine:
             assert gap_start is not None
             assert gap_extend is not None
@@ -729,19 +739,14 @@ class ReadSetReader:
             # compute edit dist. with affine gap costs using base qual. as mismatch cost
             distances = [
                 (i, edit_distance_affine_gap(query, allele, base_qualities, gap_start, gap_extend))
-                for i, allele in enumerate(padded_alleles)
-                if restricted_variants is None or i in restricted_variants.as_vector()
+                for i, allele in candidates
             ]
             distances.sort(key=lambda x: x[1])
             base_qual_score = (
                 distances[0][1] - distances[1][1] if len(distances) > 1 else distances[0][1]
             )
         else:
-            distances = [
-                (i, edit_distance(query, allele))
-                for i, allele in enumerate(padded_alleles)
-                if restricted_variants is None or i in restricted_variants.as_vector()
-            ]
+            distances = [(i, edit_distance(query, allele)) for i, allele in candidates]
             distances.sort(key=lambda x: x[1])
             base_qual_score = 30
 
